@@ -48,7 +48,7 @@ What makes a good seeded change:
 For each change k = 1, 2, 3 (start each from a clean tree: `git -C {wt} checkout -- . && git -C {wt} clean -fdq`):
 1. Make the edit in {wt}.
 2. Write a demonstration: a Go test file {wt}/seeddemo/demo_test.go (package seeddemo_test or seeddemo, importing github.com/zclconf/go-cty/... public packages only) with one or more Test functions that PASS on the unmodified library and FAIL with your change. It must be deterministic (for concurrency defects it may be run with -race; say so in meta.json with "race": true).
-3. Verify all of: `go build ./...` succeeds; the existing suite passes WITH your change (the seeddemo directory moved away or excluded while you run it: run `go test -vet=off -count=1 $(go list ./... | grep -v seeddemo)`); the demo FAILS with the change; after `git stash`/reverting the library edit (keeping the demo) the demo PASSES.
+3. Verify all of: `go build ./...` succeeds; the existing suite passes WITH your change (the seeddemo directory moved away or excluded while you run it: run `go test -vet=off -count=1 $(go list ./... | grep -v seeddemo)`); the demo FAILS with the change; after reverting the library edit (keeping the demo) the demo PASSES. NEVER use `git stash` (the stash is shared between all worktrees of this repository and other agents are working concurrently): to revert use `git diff -- . ":(exclude)seeddemo" > ../tmp.diff && git apply -R ../tmp.diff`, and `git apply ../tmp.diff` to restore.
 4. Save into {out}/<k>/ :
    - patch.diff : output of `git -C {wt} diff -- . ':(exclude)seeddemo'` (library edit only, must apply with `git apply` to a clean checkout of the same commit)
    - demo_test.go : a copy of your demonstration file
